@@ -29,12 +29,13 @@ def main():
     ap.add_argument("--tier", default="quick")
     ap.add_argument("--also", default="")
     ap.add_argument("--keep", action="store_true")
+    ap.add_argument("--round", type=int, default=1)
     a = ap.parse_args()
     src = os.path.join(a.src, a.pid, a.mk)
-    name = "%s-%s" % (a.pid, a.mk)
+    name = "%s-%s" % (a.pid, a.mk if a.round == 1 else "r%d%s" % (a.round, a.mk))
     wt = "/tmp/seed_eval/wt_" + name
     bd = "/tmp/seed_eval/build_" + name
-    out = dict(id=name, property=a.pid)
+    out = dict(id=name, property=a.pid, round=a.round)
     meta = {}
     try:
         meta = json.load(open(os.path.join(src, "meta.json")))
@@ -147,7 +148,7 @@ def finish(out, a, src, verdict, ran):
             if f.endswith(".diff") or f.endswith("_test.go"):
                 shutil.copy(os.path.join(src, f), os.path.join(d, f if not f.endswith("_test.go") else "demo_test.go.txt"))
         m = out.get("seeder_meta", {})
-        meta = dict(id=out["id"], property=out["property"], title=m.get("title"), breaks=m.get("breaks"),
+        meta = dict(id=out["id"], property=out["property"], round=out.get("round", 1), title=m.get("title"), breaks=m.get("breaks"),
                     needs_to_manifest=m.get("needs"), package_dir=m.get("package_dir"), demo_file=m.get("demo_file"),
                     deterministic=m.get("deterministic"), files_changed=out.get("files_changed"),
                     confirmed=dict(builds=True, existing_suite_passes=out.get("suite_passes_with_change"),
